@@ -106,8 +106,9 @@ def parse_outcome(s):
         return ("unrelated", "RecursionError")
     except Exception as e:
         return ("unrelated", type(e).__name__ + ": " + str(e)[:80])
-    atoms = [(a, d["atomic_number"], d.get("mass"), d.get("rad"), d.get("partition")) for a, d in sorted(g.nodes(data=True))]
-    syms_ok = all(d["element_symbol"] == SYM[d["atomic_number"]] for _, d in g.nodes(data=True))
+    # a returned graph may be malformed (e.g. a node without attributes): report what is there
+    atoms = [(a, d.get("atomic_number"), d.get("mass"), d.get("rad"), d.get("partition")) for a, d in sorted(g.nodes(data=True))]
+    syms_ok = all(d.get("element_symbol") == SYM.get(d.get("atomic_number")) for _, d in g.nodes(data=True))
     return ("ok", atoms, sorted(tuple(sorted(e)) for e in g.edges), syms_ok)
 
 
